@@ -88,10 +88,14 @@ impl SubtypeElements {
             SubtypeElements::UserDefinedConstraint(_) => false,
             SubtypeElements::PropertySettings(_) => false,
             SubtypeElements::PermittedAlphabet(e) => e.has_cross_reference(),
+            // a referenced type contributes the constraints of its definition
             SubtypeElements::ContainedSubtype {
                 subtype,
                 extensible: _,
-            } => subtype.contains_constraint_reference(),
+            } => {
+                matches!(subtype, ASN1Type::ElsewhereDeclaredType(_))
+                    || subtype.contains_constraint_reference()
+            }
             SubtypeElements::ValueRange {
                 min,
                 max,
